@@ -5,18 +5,18 @@
        flatten / simplify, the logic-constraint test, Exp::linearize, the main loop with its step bound, row-name
        de-duplication, variable sorting, coefficient extraction, published domains;
    (2) FOR THE ARITHMETIC FRAGMENT WITH ABS, MIN AND MAX (C01_projection_abs): constraints and objective built from
-       + - * / (by constants), unary minus, abs(.), min{..} and max{..} nested to any depth, no operand of a min / max
-       pruned as dominated.  Here the compiler creates auxiliary variables ($abs_k, $abs_k_positive, $max_k,
+       + - * / (by constants), unary minus, abs(.), min{..} and max{..} nested to any depth, the dominated-operand pruning
+       of min / max included (Proof/Pruning.v).  Here the compiler creates auxiliary variables ($abs_k, $abs_k_positive, $max_k,
        $max_k_select_i, ...), pushes one-sided, big-M or selector rows back into its queue and relies on the bound
        analysis (whose box must be, and is proved to be, implied by the domains the compiler emits); the statement is
        a genuine projection: extensions on the auxiliary names exist in one direction and are forgotten in the other.
-   For models with logic nodes or pruned operands the statement below is the target; machine-checked for them are the
+   For models with logic nodes the statement below is the target; machine-checked for them are the
    *_partial theorems (every lowering arm's row pattern in both directions, the soundness of all facts the rewrites
    rely on, the frame property of the main loop). *)
 From Coq Require Import QArith Reals List String.
 From Rooc Require Import Base.XQ Model.Exp Model.Sem Model.Bounds Model.Linearize Model.Spec
   Proof.BoundsOfSound Proof.PropagateSound Proof.PublishedCompile Proof.LinAffine Proof.ArmLemmas
-  Proof.SimplifyMain Proof.FlattenSound Proof.LinFrame Proof.CompileAffine Proof.CompileAbs.
+  Proof.SimplifyMain Proof.FlattenSound Proof.LinFrame Proof.CompileAffine Proof.Pruning Proof.CompileAbs.
 Import ListNotations.
 Local Close Scope Q_scope.
 Local Open Scope R_scope.
@@ -54,7 +54,7 @@ Proof. split; [exact m0_affine|exact m0_compiles]. Qed.
    names, and the trace condition compile_trace m = true: the objective and every constraint the main loop takes from
    its queue (source constraints and the rows the arms pushed back) is not an assertion, is not taken by the
    logic-constraint test and, once rewritten by flatten / simplify, has only arithmetic, abs, min and max nodes over names
-   declared so far, with no operand of a min / max pruned as dominated (noprune).  abs_modelb decides abs_model and is evaluated on every tied model. *)
+   declared so far.  abs_modelb decides abs_model and is evaluated on every tied model. *)
 Theorem C01_projection_abs :
   forall (m : model) (L : linmodel), abs_model m -> compile m = inr L ->
     forall rho : string -> R,
@@ -81,11 +81,31 @@ Proof. split; [exact m1_abs_model|split; [exact m1_not_affine|exact m1_compiles]
 Theorem C01_projection_minmax_nonvacuous :
   abs_model m2 /\ exists L, compile m2 = inr L /\ (List.length (lm_vars L) > 6)%nat.
 Proof. split; [exact (abs_modelb_sound m2 m2_in_fragment)|exact m2_compiles]. Qed.
+(* ... and by a model in which operands are pruned as dominated (max{x, -20, y - 30} keeps x alone) *)
+Theorem C01_projection_pruning_nonvacuous :
+  abs_model m3 /\
+  retained_indices KMax (map (bounds_of (s_an (init_state m3))) [Var "x"; Num (Fin (-20)%Q); BinOp Sub (Var "y") (Num (Fin 30%Q))]) = [0%nat].
+Proof. split; [exact (abs_modelb_sound m3 m3_in_fragment)|exact m3_prunes]. Qed.
+(* the pruning rule on its own: at every point of the box some retained operand attains the maximum / minimum *)
+Theorem C01_pruning_keeps_the_maximum :
+  forall (obs : list bounds) (vs : list R) (M : R),
+    (forall i, (i < List.length obs)%nat -> in_b (nth i obs b_unbounded) (nth i vs 0)) ->
+    (forall i, (i < List.length obs)%nat -> nth i vs 0 <= M) ->
+    (exists i, (i < List.length obs)%nat /\ nth i vs 0 = M) ->
+    exists r, In r (retained_indices KMax obs) /\ nth r vs 0 = M.
+Proof. exact prune_max. Qed.
+Theorem C01_pruning_keeps_the_minimum :
+  forall (obs : list bounds) (vs : list R) (M : R),
+    (forall i, (i < List.length obs)%nat -> in_b (nth i obs b_unbounded) (nth i vs 0)) ->
+    (forall i, (i < List.length obs)%nat -> M <= nth i vs 0) ->
+    (exists i, (i < List.length obs)%nat /\ nth i vs 0 = M) ->
+    exists r, In r (retained_indices KMin obs) /\ nth r vs 0 = M.
+Proof. exact prune_min. Qed.
 (* one call of Exp::linearize on this fragment, at any state satisfying the invariant: the specification that the
    induction carries (auxiliaries fresh, queue and rows only grow, the context is finite, over declared names, related to
    the value as the requirement says, and every point of the old state extends to the new one with the exact value) *)
 Theorem C01_linearize_abs_spec :
-  forall n e r s c s', okexp e = true -> noprune (s_an s) e = true -> INV s -> incl (xvars e) (keys s) -> tot e ->
+  forall n e r s c s', okexp e = true -> INV s -> incl (xvars e) (keys s) -> tot e ->
     lin n e r s = inr (c, s') -> lin_spec e r s c s'.
 Proof. exact lin_ok. Qed.
 
